@@ -242,7 +242,8 @@ func (m *Machine) installExterns() {
 		copy(args, s.arr[s.off:s.off+s.len])
 		return m.sprintf(f, args)
 	}
-	for _, n := range []string{"Compare", "Contains", "Index", "LastIndex", "HasPrefix", "HasSuffix", "ToUpper", "ToLower", "Replace", "ReplaceAll", "Split", "TrimSpace", "Repeat"} {
+	for _, n := range []string{"Compare", "Contains", "Index", "LastIndex", "HasPrefix", "HasSuffix", "ToUpper", "ToLower", "Replace", "ReplaceAll", "Split", "TrimSpace", "Repeat",
+		"SplitN", "Fields", "Join", "Count", "EqualFold", "TrimPrefix", "TrimSuffix", "Trim", "TrimLeft", "TrimRight", "ContainsRune", "ContainsAny", "IndexByte", "IndexRune", "Title"} {
 		n := n
 		ex["strings."+n] = func(m *Machine, a []value, site ssa.Instruction) value { return m.stringsFn(n, a, site) }
 	}
